@@ -25,7 +25,7 @@ from .reach import ReachDefs
 
 MUTATORS = {"append", "extend", "add", "update", "insert", "setdefault", "appendleft", "__ior__"}
 OUTPARAM_METHODS = {"readinto": 0, "readinto1": 0, "recv_into": 0}
-MAXDEPTH = 14
+MAXDEPTH = 30
 MAXSET = 60
 
 
@@ -34,17 +34,22 @@ def fs(*terms):
 
 
 class Flow:
-    def __init__(self, prog, res, stop_funcs=(), hook=None):
+    def __init__(self, prog, res, stop_funcs=(), hook=None, opaque_funcs=()):
         self.prog = prog
         self.res = res
+        self.opaque = set(opaque_funcs)  # package functions kept as ('pkgcall', qual, args) instead of being expanded
         self.stop = set(stop_funcs)      # Func objects whose parameters are sources
         self.hook = hook                  # hook(fn, name, what, payload, flow) -> frozenset | None
+        self.maxdepth = MAXDEPTH
         self._cfg = {}
         self._rd = {}
         self._active = set()
         self._mutdefs = {}
         self._attrstores = {}
         self.depth_hits = 0
+        self.rec_hits = 0
+        self._memo = {}
+        self._keep = []
 
     # ------------------------------------------------------------------ helpers
     def cfg(self, fn):
@@ -167,19 +172,31 @@ class Flow:
     # ------------------------------------------------------------------ main
     def term(self, expr, fn, env=None, depth=0, mod=None):
         env = env or {}
-        if depth > MAXDEPTH:
+        if depth > self.maxdepth:
             self.depth_hits += 1
             return fs(("unknown", "depth"))
-        key = (id(expr), fn.qual if fn else None, tuple(sorted((k, id(v)) for k, v in env.items())))
+        try:
+            ekey = frozenset(env.items()) if env else None
+        except TypeError:
+            ekey = tuple(sorted((k, id(v)) for k, v in env.items()))
+        key = (id(expr), fn.qual if fn else None, ekey)
+        hit = self._memo.get(key)
+        if hit is not None:
+            return hit
         if key in self._active:
+            self.rec_hits += 1
             return fs(("rec", ast.unparse(expr)[:40] if isinstance(expr, ast.AST) else "?"))
         self._active.add(key)
+        d0, r0 = self.depth_hits, self.rec_hits
         try:
             out = self._term(expr, fn, env, depth, mod or (fn.module if fn else None))
         finally:
             self._active.discard(key)
         if len(out) > MAXSET:
             out = frozenset(list(out)[:MAXSET]) | fs(("unknown", "wide"))
+        if d0 == self.depth_hits and r0 == self.rec_hits:
+            self._memo[key] = out
+            self._keep.append(expr)
         return out
 
     def _many(self, exprs, fn, env, depth, mod):
@@ -545,8 +562,69 @@ class Flow:
             elif k[0] == "ext":
                 out.add(("global", k[1], e.attr))
             elif k[0] not in ("inst", "class"):
-                out.add(("attr", self.term(e.value, fn, env, depth + 1, mod), e.attr))
-        return frozenset(out) or fs(("attr", self.term(e.value, fn, env, depth + 1, mod), e.attr))
+                base = self.term(e.value, fn, env, depth + 1, mod)
+                insts = self._insts_in(base)
+                if insts:
+                    for it in insts:
+                        out |= self._inst_attr(it, e.attr, env, depth)
+                else:
+                    out.add(("attr", base, e.attr))
+        if out:
+            return frozenset(out)
+        base = self.term(e.value, fn, env, depth + 1, mod)
+        insts = self._insts_in(base)
+        if insts:
+            for it in insts:
+                out |= self._inst_attr(it, e.attr, env, depth)
+            return frozenset(out)
+        return fs(("attr", base, e.attr))
+
+    def _insts_in(self, terms, depth=0):
+        """('inst', ...) terms reachable through element / subscript / list wrappers."""
+        out = []
+        if depth > 6:
+            return out
+        for t in terms:
+            if t[0] == "inst":
+                out.append(t)
+            elif t[0] in ("elem",):
+                out += self._insts_in(t[1], depth + 1)
+            elif t[0] == "sub":
+                out += self._insts_in(t[1], depth + 1)
+            elif t[0] == "list":
+                for p in t[1]:
+                    out += self._insts_in(p, depth + 1)
+            elif t[0] == "op" and t[1] in ("aug", "Add"):
+                for p in t[2]:
+                    out += self._insts_in(p, depth + 1)
+        return out
+
+    def _inst_attr(self, inst_term, attr, env, depth):
+        cls = self.prog.classes.get(inst_term[1])
+        if cls is None:
+            return {("attr", fs(inst_term), attr)}
+        stores = self.attr_stores(cls, attr)
+        m = self.prog.find_method(cls, attr)
+        if not stores:
+            return {("global", m.module.name, m.qualname)} if m else {("selfattr", cls.qual, attr)}
+        benv = dict(env)
+        for pn, pv in inst_term[2]:
+            benv[pn] = pv
+        out = set()
+        for (val, m2, site, idx) in stores:
+            if val is None:
+                continue
+            if m2 is None:
+                out |= self.term(val, None, {}, depth + 1, cls.module)
+            elif idx in ("iter", "mut"):
+                out.add(("elem", self.term(val, m2, benv, depth + 1)))
+            elif idx == "aug":
+                out.add(("op", "aug", (self.term(val, m2, benv, depth + 1),)))
+            elif isinstance(idx, int):
+                out |= self._unpack_call(val, idx, m2, benv, depth) if isinstance(val, ast.Call) else self._unpack(val, idx, 0, m2, benv, depth)
+            else:
+                out |= self.term(val, m2, benv, depth + 1)
+        return out
 
     def _unpack_call(self, value, idx, f, env, depth):
         out = set()
@@ -607,13 +685,26 @@ class Flow:
             for p in callee.all_params():
                 if (callee.qual, p) not in cenv and p != callee.self_name:
                     picked = set()
-                    for t in kw:
-                        if t[0] == "dict":
-                            for kt, vt in t[1]:
-                                if any(k == ("const", p) for k in kt):
-                                    picked |= vt
+                    for t in self._dicts_in(kw):
+                        for kt, vt in t[1]:
+                            if any(k == ("const", p) for k in kt):
+                                picked |= vt
                     cenv[(callee.qual, p)] = frozenset(picked) if picked else fs(("sub", kw, fs(("const", p))))
         return cenv
+
+    def _dicts_in(self, terms, depth=0):
+        out = []
+        if depth > 6:
+            return out
+        for t in terms:
+            if t[0] == "dict":
+                out.append(t)
+            elif t[0] in ("elem", "sub"):
+                out += self._dicts_in(t[1], depth + 1)
+            elif t[0] == "list":
+                for p in t[1]:
+                    out += self._dicts_in(p, depth + 1)
+        return out
 
     def _call(self, e, fn, env, depth, mod):
         targets = self.res.call_targets(e, fn, mod)
@@ -621,6 +712,14 @@ class Flow:
         args = self._many([a for a in e.args], fn, env, depth + 1, mod)
         kwargs = tuple((kw.arg or "**", self.term(kw.value, fn, env, depth + 1, mod)) for kw in e.keywords)
         for t in targets:
+            if t[0] == "pkg" and t[1] in self.opaque:
+                callee = t[1]
+                skip_self = callee.cls is not None and not callee.is_static
+                bound = self.res.bind_args(callee, e, skip_self)
+                out.add(("pkgcall", callee.qual, tuple(sorted(
+                    ((p, self.term(a, fn, env, depth + 1, mod)) for p, a in bound.items() if isinstance(a, ast.AST) and not p.startswith("*")),
+                    key=lambda kv: kv[0]))))
+                continue
             if t[0] == "pkg":
                 callee = t[1]
                 if callee.name == "__init__" and callee.cls is not None and not (
@@ -749,6 +848,8 @@ def show1(t, depth=0, maxdepth=6):
         return "f'%s'" % "+".join(S(x) for x in t[1])
     if k == "inst":
         return "%s(...)" % t[1].split(":")[-1]
+    if k == "pkgcall":
+        return "%s(%s)" % (t[1].split(":")[-1], ", ".join("%s=%s" % (n, S(v)) for n, v in t[2]))
     if k == "selfattr":
         return "attr:%s.%s" % (t[1].split(":")[-1], t[2])
     if k == "global":
